@@ -225,9 +225,20 @@ def op_mk(st, op, info):
         rot = op.get("rot", 0) % max(1, len(perm))
         perm = perm[rot:] + perm[:rot]
         take = tuple(perm[:max(0, min(len(perm), k))])
+        if op.get("dup") and take:
+            # F1: one dimension asked for twice (by its letter again, or by its name): whatever comes back must still be over
+            # pairwise distinct letters - refusing is fine
+            take = take + ((take[0],) if op["dup"] == "letter" else (ds[take[0]].name,))
+            st.fault("dimension_requested_twice")
         r = call(st, op, lambda: FlodymArray.from_dims_superset(ds, dim_letters=take), info)
     elif via == "full":
-        r = call(st, op, lambda: FlodymArray.full(ds, float(op.get("num", 2))), info)
+        if op.get("dup") and len(ds.dim_list) > 0:
+            letters = tuple(d.letter for d in ds)
+            key = letters + ((letters[0],) if op["dup"] == "letter" else (ds[letters[0]].name,))
+            st.fault("dimension_requested_twice")
+            r = call(st, op, lambda: FlodymArray.full(ds[key], float(op.get("num", 2))), info)
+        else:
+            r = call(st, op, lambda: FlodymArray.full(ds, float(op.get("num", 2))), info)
     elif via == "full_nd":
         # an array fill value: broadcastable shapes are documented as allowed, others must be refused
         shp = shape
@@ -709,6 +720,26 @@ def op_lifetime(st, op, info):
         how = op["prm"][n % len(op["prm"])]
         if how["how"] == "num":
             prms[name] = 2.0 + n
+        elif how["how"] == "nd":
+            # a raw ndarray: of the model's shape, or of another one (transposed / one axis longer / flat) that must be refused
+            shp = tuple(len(d.items) for d in ds)
+            ws = wrong_shapes(shp)
+            sf_ = how.get("shape_fault")
+            fits = True
+            if sf_ in ws and ws[sf_] != shp:
+                try:
+                    fits = np.broadcast_shapes(ws[sf_], shp) == shp  # numbers that broadcast into the model's shape are accepted
+                except ValueError:
+                    fits = False
+            if not fits:
+                shp = ws[sf_]
+                info.must_raise = "lifetime-prm-rejected"
+                st.fault("lifetime_prm_ndarray_wrong_shape")
+            else:
+                st.probe("lifetime_prm_ndarray_full_shape")
+            arr = int_values(how.get("vseed", 0), shp, 1, 6)
+            info.raw.append(("ndarray", arr, arr.copy(), lambda s_, o: values_equal(s_, o)))
+            prms[name] = arr
         elif how["how"] == "ref":
             a = st.slot(how["slot"])
             if a is None:
